@@ -4,6 +4,7 @@ From Coq Require Import List ZArith NArith Bool Sorting.Permutation Sorting.Sort
 From RRSS Require Import Base.Outcome Base.Chars Base.F64 Base.F64Text Front.Ast Lint.Lint Proofs.LintLaws Proofs.LintTotal.
 From Coq Require Import Floats.SpecFloat.
 From RRSS Require Import Proofs.DigitBound Proofs.DigitLaws.
+From RRSS Require Import Proofs.FloatValid Proofs.LintValid.
 Import ListNotations.
 
 (** the diagnostics returned are ordered by line *)
@@ -54,7 +55,19 @@ Theorem C19_numeric_diag_ok :
   forall pre sep var v ln, f_in_range v -> exists ds, numeric_diag pre sep var v ln = Ok ds.
 Proof. exact numeric_diag_ok. Qed.
 
+(** joined: number literals are what [f64_parse] returns — binary64 data —, the folder's operations keep
+    binary64 data, such data print as decimal text: for every syntax tree whose number literals are binary64
+    data the linter returns its diagnostics, with no budget and no failure left in the statement *)
+Theorem C19_number_literals_are_binary64 :
+  forall s v, f64_parse s = Some v -> fvalid v.
+Proof. exact f64_parse_valid. Qed.
+
+Theorem C19_lint_returns_diagnostics :
+  forall p, Forall lv_block p -> exists ds, lint p = Ok ds.
+Proof. exact lint_ok. Qed.
+
 Print Assumptions C19_lint_total.
 Print Assumptions C19_lint_sorted.
 Print Assumptions C19_lint_complete_stable.
 Print Assumptions C19_numeric_diag_ok.
+Print Assumptions C19_lint_returns_diagnostics.
